@@ -11,6 +11,7 @@ import GIV.Lemmas.ImportsBuildProofs
 import GIV.Lemmas.ImportsBuildSuffix
 import GIV.Lemmas.ImportsBuildGoFile
 import GIV.Lemmas.ImportsBuildGoSB
+import GIV.Lemmas.ScanSpec
 
 namespace GIV.C19
 open GIV GIV.Build
@@ -259,5 +260,138 @@ example : GIV.Go.Build.MatchFile exIsLetter exIsDigit [120, 95, 108, 105, 110, 1
 example : ∃ b, GIV.Go.Build.MatchFile exIsLetter exIsDigit [120, 95, 119, 105, 110, 100, 111, 119, 115, 95, 97, 109, 100, 54, 52, 95, 116, 101, 115, 116, 46, 103, 111] exTags = some b ∧ b = false ∧
     exTags star = false ∧ SuffixUnselected exTags [120, 95, 119, 105, 110, 100, 111, 119, 115, 95, 97, 109, 100, 54, 52, 95, 116, 101, 115, 116, 46, 103, 111] :=
   ⟨false, by decide +kernel, rfl, by decide, by decide⟩
+
+/-! ### the caller: imports.ScanDir (imports/scan.go)
+
+Model: GIV.Model.Scan.scanDir — the directory-entry filter of ScanDir followed by scanFiles with
+explicitFiles = false; `entrySelected` (GIV.Lemmas.ScanSpec) = regular file ∧ name does not start with
+"_" ∧ name ends in ".go" ∧ MatchFile ∧ not skipped by the `import "C"` rule ∧ ShouldBuild on the
+prefix ReadImports returned.  Tied to /repo by the scan lane of the correspondence run. -/
+
+/-- example directory, in ReadDir order:
+`_u.go`: 'package p\\nimport "u"\\n';
+`a.go`: 'package p\\nimport "b"\\nimport "a"\\n';
+`a_test.go`: 'package p\\nimport (\\n"t"\\n"a\\\\x62"\\n"\\\\q"\\n)\\n';
+`c.go`: 'package p\\nimport "C"\\nimport "z"\\n';
+`i.go`: '// +build ignore\\n\\npackage p\\nimport "i"\\n';
+`sub.go` (a directory): -;
+`w.go`: '// +build windows\\n\\npackage p\\nimport "w"\\n';
+`x_windows.go`: 'package p\\nimport "xw"\\n';
+`z.txt`: 'package p\\nimport "txt"\\n'. -/
+def exDir : List GIV.Scan.Entry :=
+  [⟨[95, 117, 46, 103, 111], true, [112, 97, 99, 107, 97, 103, 101, 32, 112, 10, 105, 109, 112, 111, 114, 116, 32, 34, 117, 34, 10]⟩,
+   ⟨[97, 46, 103, 111], true, [112, 97, 99, 107, 97, 103, 101, 32, 112, 10, 105, 109, 112, 111, 114, 116, 32, 34, 98, 34, 10, 105, 109, 112, 111, 114, 116, 32, 34, 97, 34, 10]⟩,
+   ⟨[97, 95, 116, 101, 115, 116, 46, 103, 111], true, [112, 97, 99, 107, 97, 103, 101, 32, 112, 10, 105, 109, 112, 111, 114, 116, 32, 40, 10, 34, 116, 34, 10, 34, 97, 92, 120, 54, 50, 34, 10, 34, 92, 113, 34, 10, 41, 10]⟩,
+   ⟨[99, 46, 103, 111], true, [112, 97, 99, 107, 97, 103, 101, 32, 112, 10, 105, 109, 112, 111, 114, 116, 32, 34, 67, 34, 10, 105, 109, 112, 111, 114, 116, 32, 34, 122, 34, 10]⟩,
+   ⟨[105, 46, 103, 111], true, [47, 47, 32, 43, 98, 117, 105, 108, 100, 32, 105, 103, 110, 111, 114, 101, 10, 10, 112, 97, 99, 107, 97, 103, 101, 32, 112, 10, 105, 109, 112, 111, 114, 116, 32, 34, 105, 34, 10]⟩,
+   ⟨[115, 117, 98, 46, 103, 111], false, []⟩,
+   ⟨[119, 46, 103, 111], true, [47, 47, 32, 43, 98, 117, 105, 108, 100, 32, 119, 105, 110, 100, 111, 119, 115, 10, 10, 112, 97, 99, 107, 97, 103, 101, 32, 112, 10, 105, 109, 112, 111, 114, 116, 32, 34, 119, 34, 10]⟩,
+   ⟨[120, 95, 119, 105, 110, 100, 111, 119, 115, 46, 103, 111], true, [112, 97, 99, 107, 97, 103, 101, 32, 112, 10, 105, 109, 112, 111, 114, 116, 32, 34, 120, 119, 34, 10]⟩,
+   ⟨[122, 46, 116, 120, 116], true, [112, 97, 99, 107, 97, 103, 101, 32, 112, 10, 105, 109, 112, 111, 114, 116, 32, 34, 116, 120, 116, 34, 10]⟩]
+
+/-- the scan result as plain data (for closed examples). -/
+def showScan : Except GIV.Scan.ScanErr (List Bytes × List Bytes) → Option (List Bytes × List Bytes) × Option GIV.Scan.ScanErr
+  | .ok r => (some r, none)
+  | .error e => (none, some e)
+
+open GIV.Scan in
+/-- ScanDir scans exactly the selected entries: when it succeeds, `imports` (`testImports`) consists of
+exactly the unquoted import literals of the entries that are regular files, do not start with "_", end
+in ".go", satisfy MatchFile, are not skipped by the `import "C"` rule and satisfy ShouldBuild on the
+returned prefix, and whose name does not (does) end in `_test.go` — the test being made on the entry's
+name, although the code makes it on `dir/name`; and at least one entry is selected. -/
+theorem scanDir_file_set (U : Nat → Bool) (tags : Tags) (dir : Bytes) (entries : List Entry)
+    (imps timps : List Bytes) (h : scanDir U tags dir entries = .ok (imps, timps)) :
+    (∀ q, q ∈ imps ↔ ∃ e ∈ entries, entrySelected U tags e = true ∧ hasSuffix testGoSuffix e.name = false ∧
+        ∃ p ∈ litsD e.data, unquote p = some q) ∧
+    (∀ q, q ∈ timps ↔ ∃ e ∈ entries, entrySelected U tags e = true ∧ hasSuffix testGoSuffix e.name = true ∧
+        ∃ p ∈ litsD e.data, unquote p = some q) ∧
+    (∃ e ∈ entries, entrySelected U tags e = true) := by
+  rw [scanDir_eq] at h
+  obtain ⟨_, hc, hi, ht⟩ := scanFiles_ok_inv U tags false _ imps timps h
+  subst hi ht
+  refine ⟨?_, ?_, ?_⟩
+  · intro q
+    rw [mem_keys, mem_impsOf, dirFiles_exists]
+    constructor
+    · rintro ⟨e, he, hd, hs, hT, hp⟩
+      rw [isTest_join] at hT
+      exact ⟨e, he, by rw [entrySelected_eq U tags dir, hd, hs]; rfl, hT, hp⟩
+    · rintro ⟨e, he, hs, hT, hp⟩
+      rw [entrySelected_eq U tags dir, Bool.and_eq_true] at hs
+      exact ⟨e, he, hs.1, hs.2, by rw [isTest_join]; exact hT, hp⟩
+  · intro q
+    rw [mem_keys, mem_testImpsOf, dirFiles_exists]
+    constructor
+    · rintro ⟨e, he, hd, hs, hT, hp⟩
+      rw [isTest_join] at hT
+      exact ⟨e, he, by rw [entrySelected_eq U tags dir, hd, hs]; rfl, hT, hp⟩
+    · rintro ⟨e, he, hs, hT, hp⟩
+      rw [entrySelected_eq U tags dir, Bool.and_eq_true] at hs
+      exact ⟨e, he, hs.1, hs.2, by rw [isTest_join]; exact hT, hp⟩
+  · obtain ⟨f, hf, hs⟩ := countSel_ne_zero U tags false _ hc
+    obtain ⟨e, he, hd, hs'⟩ := (dirFiles_exists U tags dir entries (fun f => selected U tags false f = true)).mp ⟨f, hf, hs⟩
+    exact ⟨e, he, by rw [entrySelected_eq U tags dir, hd, hs']; rfl⟩
+
+-- the example directory under {android, amd64}: only a.go and a_test.go are scanned
+-- (_u.go: underscore; c.go: import "C" without cgo; i.go, w.go: +build line; sub.go: not regular; x_windows.go: MatchFile; z.txt: not .go)
+example : showScan (GIV.Scan.scanDir exU exTags [100] exDir) = (some ([[97], [98]], [[97, 98], [116]]), none) := by
+  decide +kernel
+example : exDir.map (GIV.Scan.entrySelected exU exTags) = [false, true, true, false, false, false, false, false, false] := by
+  decide +kernel
+
+open GIV.Scan in
+/-- ScanDir reports ErrNoGo exactly when ReadImports fails on no entry that passes the entry filter and
+no entry is selected (an empty directory included). -/
+theorem scanDir_noGo_iff (U : Nat → Bool) (tags : Tags) (dir : Bytes) (entries : List Entry) :
+    scanDir U tags dir entries = .error .noGo ↔
+      (∀ e ∈ entries, dirSelects U tags e = true → readFails (joinPath dir e.name, e.data) = none) ∧
+      ∀ e ∈ entries, entrySelected U tags e = false := by
+  rw [scanDir_eq, scanFiles_noGo_iff, dirFiles_forall, dirFiles_forall]
+  constructor
+  · rintro ⟨h1, h2⟩
+    refine ⟨h1, fun e he => ?_⟩
+    rw [entrySelected_eq U tags dir]
+    cases hd : dirSelects U tags e with
+    | false => rfl
+    | true => rw [h2 e he hd]; rfl
+  · rintro ⟨h1, h2⟩
+    refine ⟨h1, fun e he hd => ?_⟩
+    have := h2 e he
+    rw [entrySelected_eq U tags dir, hd] at this
+    simpa using this
+
+-- only filtered entries (_u.go, sub.go, x_windows.go, z.txt, c.go, w.go): ErrNoGo; so is the empty directory
+example : showScan (GIV.Scan.scanDir exU exTags [100] (exDir.filter fun e => e.name != [97, 46, 103, 111] && e.name != [97, 95, 116, 101, 115, 116, 46, 103, 111])) = (none, some .noGo) := by
+  decide +kernel
+example : showScan (GIV.Scan.scanDir exU exTags [100] []) = (none, some .noGo) := by decide +kernel
+
+open GIV.Scan in
+/-- With `*` set, ScanDir's selection is: regular file, no "_" prefix, ".go" suffix, and ShouldBuild —
+MatchFile accepts every name (`star_accepts`) and the `import "C"` rule is off; and ShouldBuild
+accepts every file in which each +build line of the leading block has an option made of well-formed
+terms none of which names `ignore`: then every regular, non-underscore .go file is scanned. -/
+theorem scanDir_star_file_set (U : Nat → Bool) (tags : Tags) (hs : tags star = true) (e : Entry) :
+    entrySelected U tags e =
+      (e.regular && !hasPrefix underscore e.name && hasSuffix dotGo e.name && shouldBuild U (prefixD e.data) tags) ∧
+    ((∀ l ∈ leadingBlock (linesOf (prefixD e.data)), ∀ args, plusBuildArgs l = some args →
+        ∃ opt ∈ args, ∀ t ∈ parseOption U opt, ∃ n, (t = .tag n ∨ t = .not n) ∧ n ≠ ignore) →
+      entrySelected U tags e = (e.regular && !hasPrefix underscore e.name && hasSuffix dotGo e.name)) := by
+  have h1 : entrySelected U tags e =
+      (e.regular && !hasPrefix underscore e.name && hasSuffix dotGo e.name && shouldBuild U (prefixD e.data) tags) := by
+    unfold entrySelected
+    rw [(star_accepts U e.name (prefixD e.data) tags hs).1, cSkip_star tags hs]
+    simp
+  refine ⟨h1, fun hb => ?_⟩
+  rw [h1, (star_accepts U e.name (prefixD e.data) tags hs).2 hb]
+  simp
+
+-- the example directory under {*}: c.go (import "C"), w.go (+build windows) and x_windows.go are scanned as well;
+-- i.go (+build ignore) is not
+example : showScan (GIV.Scan.scanDir exU (fun t => t == star) [100] exDir)
+    = (some ([[67], [97], [98], [119], [120, 119], [122]], [[97, 98], [116]]), none) := by
+  decide +kernel
+example : exDir.map (GIV.Scan.entrySelected exU (fun t => t == star)) = [false, true, true, true, false, false, true, true, false] := by
+  decide +kernel
 
 end GIV.C19
